@@ -4,7 +4,7 @@
 From RP Require Import Base Target MiluSyntax MiluParser.
 From RP.Gen Require Import Gen_ladder.
 From Coq Require Import ZArith String.
-Open Scope string_scope.
+Local Open Scope string_scope.
 
 (* what each documented operator means (independent of the parser's own tables) *)
 Definition doc_semantics : list (string * string) := [
